@@ -195,7 +195,7 @@ def conflicting_publishes(prog):
     return False
 
 
-def run_chunk(ctx, n_programs, props, mode='plain', gen_kw=None):
+def run_chunk(ctx, n_programs, props, mode='plain', gen_kw=None, p_err=0.08):
     from harness.engine_driver import EngineWorld
     rng = ctx.rng
     if getattr(ctx, 'chunk', 0) == 0:
@@ -203,7 +203,7 @@ def run_chunk(ctx, n_programs, props, mode='plain', gen_kw=None):
     for i in range(n_programs):
         prog = wfgen.gen_program(rng, **(gen_kw or {}))
         y = wfgen.render_yaml(prog)
-        table = wfgen.gen_oracle_table(rng, prog, p_err=0.08)
+        table = wfgen.gen_oracle_table(rng, prog, p_err=p_err)
         policy = rng.choice(['random', 'random', 'fifo', 'lifo'])
         seed = rng.getrandbits(32)
         if mode == 'plain':
@@ -230,7 +230,35 @@ def run_fixed(ctx, prog, y, table, policy, seed, props, ops, mode, evict=False):
     return tr
 
 
-def run_perturbed(ctx, prog, y, table, policy, seed, props, mode):
+def search_from_core(ctx, props, mode):
+    """failing-input search, first step: the cases on which the engine model and the real engine disagreed
+    (stream core) are run to the end on the real engine, with the operator commands of the case, under the
+    statement monitors of `props` (for pause/stop/paired modes against the unperturbed reference run)"""
+    seen = set()
+    for b in list(ctx.broken):
+        if b.get('kind') != 'correspondence' or b.get('name') != 'core':
+            continue
+        c = (b.get('detail') or {}).get('case') or {}
+        if not c.get('prog') or c.get('oracle') is None:
+            continue
+        key = json.dumps([c['yaml'], c['oracle'], c.get('ops'), c['seed']], sort_keys=True, default=str)
+        if key in seen:
+            continue
+        seen.add(key)
+        table = {k: v for k, v in c['oracle'].items()} if isinstance(c['oracle'], dict) else c['oracle']
+        ops = [dict(o) for o in (c.get('ops') or [])]
+        ctx.count('engine', 'search-from-core')
+        try:
+            if mode == 'plain' or not ops:
+                run_fixed(ctx, c['prog'], c['yaml'], table, c['policy'], c['seed'], props, ops, 'ops')
+            else:
+                run_perturbed(ctx, c['prog'], c['yaml'], table, c['policy'], c['seed'], props, mode,
+                              fixed={'ops': ops})
+        except Exception as e:       # the search must not turn a broken tie into an infrastructure error
+            ctx.count('engine', 'search-from-core-error:' + type(e).__name__)
+
+
+def run_perturbed(ctx, prog, y, table, policy, seed, props, mode, fixed=None):
     """reference run, then the same program with operator commands / another schedule"""
     import random
     from harness.engine_driver import EngineWorld
@@ -241,7 +269,9 @@ def run_perturbed(ctx, prog, y, table, policy, seed, props, mode):
     n = max(1, ref.steps)
     ops = []
     policy2, seed2, evict = policy, seed, False
-    if mode == 'pause':
+    if fixed is not None:
+        ops = fixed['ops']
+    elif mode == 'pause':
         k1 = rng.randint(0, n)
         k2 = rng.choice([rng.randint(k1, n + 5), 10 ** 6])     # resume later, or only at quiescence
         ops = [{'at': k1, 'op': 'pause'}, {'at': k2, 'op': 'resume'}]
